@@ -4,12 +4,15 @@ from pathlib import Path
 LIBS = ["libavoid"]
 HARNESS = "harness/c05.cpp"
 DRIVER_MODE = "c05"
-LEAN_MODULES = ["AdaptaVerif.Props.C05"]
+LEAN_MODULES = ["AdaptaVerif.Props.C05", "AdaptaVerif.Props.C05Tie"]
 LEVEL = "translation_validation"
 LEVEL_TEXT = ("Sentence 3 (estimator never overestimates) is a Lean theorem for all rational inputs about a "
               "hand model of bends()/estimatedCostSpecific() (bends_admissible, bends_tight, bends_total, "
-              "estimate_le*), tied to makepath.cpp by exhaustive (sign-complete) + random correspondence of the "
-              "real functions. Sentences 1-2 are validated per routed scene: exact axis-parallelism of route() and "
+              "estimate_le*). bends() and the direction helpers (dimDirection, orthogonalDirection[sCount], "
+              "dirLeft/Right/Reverse) are regenerated from /repo's makepath.cpp by cpp2lean on every run and proved "
+              "equal to that model (Props/C05Tie.lean, gen_bends_is_model etc.), so for them the tie is a proof, not "
+              "only sampled; additionally the real C++ functions (incl. estimatedCostSpecific, which is only "
+              "hand-modelled) are compared with the model exhaustively over sign classes + on random inputs. Sentences 1-2 are validated per routed scene: exact axis-parallelism of route() and "
               "displayRoute(), and raw route cost = optimum of the Hanan state graph, where the optimum is "
               "certified by a potential + witness re-checked in exact rationals by a Lean checker with a "
               "soundness theorem (hanan_cert_sound, potential_lower_bound).")
@@ -31,6 +34,7 @@ RULE = ("case 0: exhaustive bends() over offsets {-2..2}^2 minus origin x 4 x 4 
         "free-space endpoints; a scene is non-trivial if the routed path has at least one bend; a kernel chunk if "
         "it made at least one call")
 TRUSTED_BASE = ["Lean 4.33 kernel", "axioms: propext, Classical.choice, Quot.sound",
+                "cpp2lean translator + clang AST (bends() and direction helpers regenerated each run, bridge lemmas to the model; cross-checked by the correspondence)",
                 "harness (scene generator, line writer) + hex-float import",
                 "Lean compiler for the driver (Check.Hanan.checkCert, Model.Bends run compiled)",
                 "Hanan-grid fact: some optimal orthogonal path lies on the grid of obstacle sides and endpoint coordinates",
@@ -55,8 +59,18 @@ def _dirs_enabled():
         return False
 
 
+def regenerate(ROOT, REPO):
+    import sys
+    from pathlib import Path as _P
+    sys.path.insert(0, str(_P(ROOT) / "tools" / "cpp2lean"))
+    import jobs
+    return jobs.regenerate(["makepath"], _P(ROOT), _P(REPO))
+
+
 def plan(tier, seed, searching):
-    h = ["--seed", str(seed), "--tier", tier, "--scale", "8" if searching else "1"]
+    # search mode (broken proof/tie): 8x the scenes in the quick tier, 4x in the thorough tier (~7 min)
+    scale = ("8" if tier == "quick" else "4") if searching else "1"
+    h = ["--seed", str(seed), "--tier", tier, "--scale", scale]
     if _dirs_enabled():
         h += ["--mode", "dirs"]
     return [dict(hargs=h)]
